@@ -391,4 +391,24 @@ func runC03(r *Run, rng *Rng, thorough bool) {
 	}
 	extSignRoundTrip(r, rng, map[bool]int{false: 300, true: 6000}[thorough])
 	signThenSignElsewhere(r, rng, map[bool]int{false: 150, true: 3000}[thorough])
+	eachClaimsCase(rng, false, map[bool]int{false: 300, true: 8000}[thorough], func(class string, d ClaimsDesc, ndev int) {
+		if conformant(&d) || hasNilComp(&d) || hasBadUTF8(&d) || d.ProfInvalid {
+			return
+		}
+		k := ks[rng.Intn(2)]
+		signer, _ := cose.NewSigner(k.algs[0], k.priv)
+		ev := &psa.Evidence{Claims: d.Build()}
+		var tok []byte
+		var err error
+		if pan, _ := safely(func() { tok, err = ev.ValidateAndSign(signer) }); pan || err != nil {
+			return
+		}
+		r.ImplOnly("nonconformant/"+class, true, "vsign-nonconformant "+d.Line())
+		e2, derr := psa.DecodeAndValidateEvidenceFromCOSE(tok)
+		if derr != nil {
+			r.Fail("decode-issued", fmt.Sprintf("ValidateAndSign issued a token (for a claims-set outside the profile's rules) that the library itself does not decode and validate: %v", derr))
+		} else if gettersOnly(observe(e2.Claims)) != gettersOnly(observe(ev.Claims)) {
+			r.Fail("claims-equal", "the claims decoded from an issued token differ from the ones signed")
+		}
+	})
 }
